@@ -100,7 +100,7 @@ def run(tier):
     spec = C05Spec()
     if tier == "quick":
         return e1check.run_e1(spec, tier, depth=4, state_budget=400000, time_budget=600, rule=RULE, assumptions=ASSUMPTIONS)
-    return e1check.run_e1(spec, tier, depth=6, state_budget=2000000, time_budget=1800, rule=RULE, assumptions=ASSUMPTIONS)
+    return e1check.run_e1(spec, tier, depth=6, state_budget=2000000, time_budget=1200, rule=RULE, assumptions=ASSUMPTIONS)
 
 
 def replay(data):
